@@ -915,4 +915,51 @@ def kernels(start_id):
                                             "b": {"k": "app", "f": "slice.Map", "args": [{"k": "lam", "params": ["x"], "body": {"stmts": [], "fin": {"k": "probe", "tag": T(0), "e": {"k": "bin", "op": "*", "a": {"k": "var", "x": "x"}, "b": {"k": "int", "v": 2}}}}}]}},
                          "b": {"k": "app", "f": "slice.Filter", "args": [{"k": "lam", "params": ["y"], "body": {"stmts": [], "fin": {"k": "bin", "op": ">", "a": {"k": "probe", "tag": T(1), "e": {"k": "var", "x": "y"}}, "b": {"k": "int", "v": 2}}}}]}}},
         ("sl", INT))
+    # K7 recursion: linear, double (order of the two calls), accumulator through a slice, under a match on a recursive union
+    def v(x):
+        return {"k": "var", "x": x}
+    def num(n):
+        return {"k": "int", "v": n}
+    def bop(op, a, b):
+        return {"k": "bin", "op": op, "a": a, "b": b}
+    for n in (0, 1, 3):
+        fn = "p%drsum" % pid[0]
+        f = {"name": fn, "params": ["n"], "ptypes": [INT], "rtype": INT,
+             "body": {"stmts": [], "fin": {"k": "if", "c": bop("<=", v("n"), num(0)),
+                                           "t": {"stmts": [{"k": "mark", "tag": T(1)}], "fin": num(0)},
+                                           "e": {"stmts": [], "fin": bop("+", {"k": "probe", "tag": T(2), "e": v("n")}, {"k": "app", "f": fn, "args": [bop("-", v("n"), num(1))]})}}}}
+        add([], [f], {"stmts": [], "fin": {"k": "app", "f": fn, "args": [num(n)]}})
+    for n in (0, 1, 2, 4):
+        fn = "p%dfib" % pid[0]
+        f = {"name": fn, "params": ["n"], "ptypes": [INT], "rtype": INT,
+             "body": {"stmts": [], "fin": {"k": "if", "c": bop("<", v("n"), num(2)),
+                                           "t": {"stmts": [], "fin": {"k": "probe", "tag": T(1), "e": v("n")}},
+                                           "e": {"stmts": [{"k": "mark", "tag": T(2)}],
+                                                 "fin": bop("+", {"k": "app", "f": fn, "args": [bop("-", v("n"), num(1))]}, {"k": "app", "f": fn, "args": [bop("-", v("n"), num(2))]})}}}}
+        add([], [f], {"stmts": [], "fin": {"k": "app", "f": fn, "args": [num(n)]}})
+    for n in (0, 2, 3):
+        fn = "p%dbuild" % pid[0]
+        f = {"name": fn, "params": ["n", "acc"], "ptypes": [INT, ("sl", INT)], "rtype": ("sl", INT),
+             "body": {"stmts": [], "fin": {"k": "if", "c": bop("=", v("n"), num(0)),
+                                           "t": {"stmts": [], "fin": v("acc")},
+                                           "e": {"stmts": [], "fin": {"k": "app", "f": fn, "args": [bop("-", v("n"), num(1)),
+                                                                                                 {"k": "app", "f": "slice.PushLast", "args": [{"k": "probe", "tag": T(1), "e": v("n")}, v("acc")]}]}}}}}
+        add([], [f], {"stmts": [], "fin": {"k": "app", "f": fn, "args": [num(n), {"k": "slice", "es": [num(9)]}]}}, ("sl", INT))
+    # a recursive union: Leaf of int | Node of (T*T); the sum visits left then right
+    for shape in (0, 1, 2):
+        un = "P%dT" % pid[0]
+        cl, cn = "P%dLeaf" % pid[0], "P%dNode" % pid[0]
+        ut = ("uni", un)
+        u = {"k": "union", "name": un, "cases": [{"n": cl, "p": True}, {"n": cn, "p": True}], "ptypes": [INT, ("tup", (ut, ut))]}
+        fn = "p%dsumt" % pid[0]
+        f = {"name": fn, "params": ["t"], "ptypes": [ut], "rtype": INT,
+             "body": {"stmts": [], "fin": {"k": "umatch", "target": v("t"),
+                                           "arms": [{"case": cl, "bind": "n", "body": {"stmts": [], "fin": {"k": "probe", "tag": T(1), "e": v("n")}}},
+                                                    {"case": cn, "bind": "p", "body": {"stmts": [{"k": "destr", "xs": ["l", "r"], "e": v("p")}],
+                                                                                         "fin": bop("+", {"k": "app", "f": fn, "args": [v("l")]}, {"k": "app", "f": fn, "args": [v("r")]})}}],
+                                           "dflt": {"k": "none"}}}}
+        leaf = lambda i: {"k": "ctor", "union": un, "case": cl, "arg": num(i)}
+        node = lambda a, b: {"k": "ctor", "union": un, "case": cn, "arg": {"k": "tuple", "es": [a, b]}}
+        tree = [leaf(5), node(leaf(1), leaf(2)), node(node(leaf(1), leaf(2)), node(leaf(3), leaf(4)))][shape]
+        add([u], [f], {"stmts": [{"k": "let", "x": "tr", "e": tree}], "fin": {"k": "app", "f": fn, "args": [v("tr")]}})
     return progs
